@@ -28,11 +28,17 @@ structure TxView where
   txTmp : Option (TxItem × Nat)
   emitted : List Msg
   processed : List Msg
+  peerInit : Option PeerInit
 
 def Ep.txView (e : Ep) : TxView :=
   ⟨e.cfg, e.closed, e.started, e.sentContact, e.sentInit, e.inSess, e.inTerm, e.sendSegSize, e.kaTime, e.idleTime,
    e.sendLog, e.txNextId, e.nStarted, e.txPendStart, e.txTmp, e.emitted,
-   e.processed⟩
+   e.processed, e.peerInit⟩
+
+/-- data octets carried by a message (0 unless it is a segment) -/
+def segLen : Msg → Nat
+  | .xferSegment _ _ _ d => d.length
+  | _ => 0
 
 def phaseOf (v : TxView) : Nat := if v.sentInit then 2 else if v.sentContact then 1 else 0
 
@@ -40,6 +46,35 @@ def curL (v : TxView) : Option (Nat × Nat × Nat) := v.txTmp.map (fun p => (p.1
 def curD (v : TxView) : Option (Nat × Bytes) := v.txTmp.map (fun p => (p.1.tid, p.1.data.take p.2))
 def doneD (v : TxView) : List (Nat × Bytes) :=
   (v.sendLog.take (v.nStarted - (if v.txTmp.isSome then 1 else 0))).map (fun it => (it.tid, it.data))
+
+/-- every emitted segment, and the current segment size, respect the peer's announced segment MRU -/
+def MruP (pi : Option PeerInit) (inSess : Bool) (seg : Nat) (em : List Msg) : Prop :=
+  (∀ p, pi = some p → 0 < p.segMru ∧ seg ≤ p.segMru ∧ ∀ m ∈ em, segLen m ≤ p.segMru)
+  ∧ (pi = none → inSess = false ∧ ∀ m ∈ em, segLen m = 0)
+  ∧ (inSess = false → pi = none)
+
+theorem MruP.emit {pi : Option PeerInit} {s : Bool} {g : Nat} {em : List Msg} (h : MruP pi s g em) (m : Msg)
+    (h1 : ∀ p, pi = some p → segLen m ≤ p.segMru) (h0 : pi = none → segLen m = 0) :
+    MruP pi s g (em ++ [m]) := by
+  refine ⟨?_, ?_, h.2.2⟩
+  · intro p hp
+    obtain ⟨a, b, c⟩ := h.1 p hp
+    refine ⟨a, b, ?_⟩
+    intro x hx
+    rcases List.mem_append.mp hx with hx | hx
+    · exact c x hx
+    · simp at hx; subst hx; exact h1 p hp
+  · intro hn
+    obtain ⟨a, c⟩ := h.2.1 hn
+    refine ⟨a, ?_⟩
+    intro x hx
+    rcases List.mem_append.mp hx with hx | hx
+    · exact c x hx
+    · simp at hx; subst hx; exact h0 hn
+
+theorem MruP.emit0 {pi : Option PeerInit} {s : Bool} {g : Nat} {em : List Msg} (h : MruP pi s g em) (m : Msg)
+    (hz : segLen m = 0) : MruP pi s g (em ++ [m]) :=
+  h.emit m (fun p _ => by rw [hz]; exact Nat.zero_le _) (fun _ => hz)
 
 /-- The transmit invariant, relative to the monitor state `P` of the processed (peer) sequence. -/
 structure TxInvV (v : TxView) (P : LState) : Prop where
@@ -65,6 +100,7 @@ structure TxInvV (v : TxView) (P : LState) : Prop where
   nle : v.nStarted ≤ v.sendLog.length
   L : legalRun {} v.emitted = some ⟨phaseOf v, v.inTerm, curL v, v.nStarted⟩
   D : rxSpec v.emitted = ⟨v.sentInit, curD v, doneD v⟩
+  mru : MruP v.peerInit v.inSess v.sendSegSize v.emitted
 
 def TxInv (e : Ep) (P : LState) : Prop := TxInvV e.txView P
 
@@ -131,7 +167,7 @@ theorem txInvV_emit_inert (v : TxView) (P : LState) (m : Msg) (hi : TxInvV v P)
     TxInvV (emitV v m) P := by
   have hsi := hi.sentInit_of_sess hs
   unfold emitV
-  refine { hi with L := ?_, D := ?_ }
+  refine { hi with L := ?_, D := ?_, mru := hi.mru.emit0 m (by cases m <;> simp [Msg.inert] at hm <;> rfl) }
   · show legalRun {} (v.emitted ++ [m]) = _
     rw [legalRun_snoc _ _ _ _ hi.L]
     exact legalStep_inert _ _ hm (phaseOf_two hsi)
@@ -200,7 +236,7 @@ theorem txInvV_sessTerm (v : TxView) (P : LState) (f r : Nat) (hi : TxInvV v P)
     (hs : v.inSess = true) (ht : v.inTerm = false) :
     TxInvV { v with inTerm := true, emitted := v.emitted ++ [.sessTerm f r], txPendStart := [] } P := by
   have hsi := hi.sentInit_of_sess hs
-  refine { hi with term := fun _ => hs, pend := ?_, L := ?_, D := ?_ }
+  refine { hi with term := fun _ => hs, pend := ?_, L := ?_, D := ?_, mru := hi.mru.emit0 _ rfl }
   · exact ⟨v.sendLog.length, hi.nle, Nat.le_refl _, by simp, fun h => by simp at h⟩
   · show legalRun {} (v.emitted ++ [.sessTerm f r]) = _
     rw [legalRun_snoc _ _ _ _ hi.L]
@@ -302,6 +338,12 @@ theorem take_self_length {α} (l : List α) (k : Nat) : l.take (l.take k).length
   · rw [Nat.min_eq_left h]
   · rw [Nat.min_eq_right (by omega), List.take_length, List.take_of_length_le (by omega)]
 
+theorem MruP.seg {pi : Option PeerInit} {g : Nat} {em : List Msg} (h : MruP pi true g em) (m : Msg)
+    (hm : segLen m ≤ g) : MruP pi true g (em ++ [m]) := by
+  refine h.emit m ?_ ?_
+  · intro p hp; exact Nat.le_trans hm (h.1 p hp).2.1
+  · intro hn; have := (h.2.1 hn).1; exact absurd this (by simp)
+
 /-- continuing an active transfer -/
 theorem txInvV_seg_cont (v : TxView) (P : LState) (it : TxItem) (sent : Nat) (hi : TxInvV v P)
     (ht : v.txTmp = some (it, sent)) : TxInvV (segV v it sent) P := by
@@ -324,7 +366,10 @@ theorem txInvV_seg_cont (v : TxView) (P : LState) (it : TxItem) (sent : Nat) (hi
   · -- END segment: transfer complete
     have hend' : sent + ((it.data.drop sent).take v.sendSegSize).length = it.data.length := by simpa using hend
     simp only [hend, if_true]
-    refine { hi with pend := hi.pend, tmp := ?_, L := ?_, D := ?_ }
+    have hm0 : MruP v.peerInit true v.sendSegSize v.emitted := by have := hi.mru; rwa [hsess] at this
+    refine { hi with mru := ?mru, pend := hi.pend, tmp := ?_, L := ?_, D := ?_ }
+    case mru =>
+      rw [hsess]; exact hm0.seg _ (by simp only [segLen]; rw [List.length_take]; exact Nat.min_le_left _ _)
     · intro it' s' h; simp at h
     · show legalRun {} (v.emitted ++ [_]) = _
       rw [legalRun_snoc _ _ _ _ hi.L]
@@ -357,7 +402,10 @@ theorem txInvV_seg_cont (v : TxView) (P : LState) (it : TxItem) (sent : Nat) (hi
       have : sent + ((it.data.drop sent).take v.sendSegSize).length ≠ it.data.length := by simpa using hend
       omega
     simp only [hend', Bool.false_eq_true, if_false, Nat.zero_add]
-    refine { hi with pend := hi.pend, tmp := ?_, L := ?_, D := ?_ }
+    have hm0 : MruP v.peerInit true v.sendSegSize v.emitted := by have := hi.mru; rwa [hsess] at this
+    refine { hi with mru := ?mru, pend := hi.pend, tmp := ?_, L := ?_, D := ?_ }
+    case mru =>
+      rw [hsess]; exact hm0.seg _ (by simp only [segLen]; rw [List.length_take]; exact Nat.min_le_left _ _)
     · intro it' s' h
       simp only [Option.some.injEq, Prod.mk.injEq] at h
       obtain ⟨rfl, rfl⟩ := h
@@ -422,7 +470,10 @@ theorem txInvV_seg_start (v : TxView) (P : LState) (it : TxItem) (rest : List Tx
     simp only [hend, if_true]
     have hs : hasStart (flagEnd + flagStart) = true := by decide
     have he : hasEnd (flagEnd + flagStart) = true := by decide
-    refine { hi with pend := ?_, tmp := ?_, nle := ?_, L := ?_, D := ?_ }
+    have hm0 : MruP v.peerInit true v.sendSegSize v.emitted := by have := hi.mru; rwa [hsess] at this
+    refine { hi with mru := ?mru, pend := ?_, tmp := ?_, nle := ?_, L := ?_, D := ?_ }
+    case mru =>
+      rw [hsess]; exact hm0.seg _ (by simp only [segLen]; rw [List.length_take]; exact Nat.min_le_left _ _)
     · exact ⟨v.nStarted + 1, Nat.le_refl _, hlt, hrest, fun _ _ => rfl⟩
     · intro it' s' h; simp at h
     · show v.nStarted + 1 ≤ v.sendLog.length; omega
@@ -442,7 +493,10 @@ theorem txInvV_seg_start (v : TxView) (P : LState) (it : TxItem) (rest : List Tx
     simp only [hend', Bool.false_eq_true, if_false, Nat.zero_add]
     have hs : hasStart flagStart = true := by decide
     have he : hasEnd flagStart = false := by decide
-    refine { hi with pend := ?_, tmp := ?_, nle := ?_, L := ?_, D := ?_ }
+    have hm0 : MruP v.peerInit true v.sendSegSize v.emitted := by have := hi.mru; rwa [hsess] at this
+    refine { hi with mru := ?mru, pend := ?_, tmp := ?_, nle := ?_, L := ?_, D := ?_ }
+    case mru =>
+      rw [hsess]; exact hm0.seg _ (by simp only [segLen]; rw [List.length_take]; exact Nat.min_le_left _ _)
     · exact ⟨v.nStarted + 1, Nat.le_refl _, hlt, hrest, fun _ _ => rfl⟩
     · intro it' s' h
       simp only [Option.some.injEq, Prod.mk.injEq] at h
@@ -498,7 +552,9 @@ theorem txInvV_contact (v : TxView) (P P' : LState) (f : Nat) (m0 m1 : Msg)
     have hsi : v.sentInit = false := by simp [hi.phaseI, hpas, hp0]
     simp only [hpas, if_true]
     subst hm0
-    refine { hi with hP := hP2, phaseC := ?_, phaseI := ?_, pPhase := ?_, sess := ?_, L := ?_, D := ?_ }
+    refine { hi with mru := ?mru, hP := hP2, phaseC := ?_, phaseI := ?_, pPhase := ?_, sess := ?_, L := ?_, D := ?_ }
+    case mru =>
+      exact hi.mru.emit0 _ rfl
     · simp [hpas]
     · simp [hpas, hsi]
     · simp
@@ -513,7 +569,9 @@ theorem txInvV_contact (v : TxView) (P P' : LState) (f : Nat) (m0 m1 : Msg)
     have hsi : v.sentInit = false := by simp [hi.phaseI, hpas', hp0]
     simp only [hpas', Bool.false_eq_true, if_false]
     obtain ⟨a, b, c, d, x, rfl⟩ := hm1
-    refine { hi with hP := hP2, phaseC := ?_, phaseI := ?_, pPhase := ?_, sess := ?_, L := ?_, D := ?_ }
+    refine { hi with mru := ?mru, hP := hP2, phaseC := ?_, phaseI := ?_, pPhase := ?_, sess := ?_, L := ?_, D := ?_ }
+    case mru =>
+      exact hi.mru.emit0 _ rfl
     · simp [hpas', hsc]
     · simp [hpas']
     · simp
@@ -533,11 +591,11 @@ theorem txInvV_sessInit (v : TxView) (P P' : LState) (ka sm xm : Nat) (node ext 
               { v with processed := v.processed ++ [.sessInit ka sm xm node ext], sentInit := true,
                        emitted := v.emitted ++ [m1], inSess := true,
                        kaTime := min v.cfg.keepalive ka, idleTime := v.cfg.idle,
-                       sendSegSize := min v.cfg.segInit sm }
+                       sendSegSize := min v.cfg.segInit sm, peerInit := some ⟨ka, sm, xm, node⟩ }
             else
               { v with processed := v.processed ++ [.sessInit ka sm xm node ext], inSess := true,
                        kaTime := min v.cfg.keepalive ka, idleTime := v.cfg.idle,
-                       sendSegSize := min v.cfg.segInit sm }) P' := by
+                       sendSegSize := min v.cfg.segInit sm, peerInit := some ⟨ka, sm, xm, node⟩ }) P' := by
   obtain ⟨hp1, hP'⟩ := legalStep_sessInit P P' _ _ _ _ _ hstep
   subst hP'
   have hP2 : legalRun {} (v.processed ++ [.sessInit ka sm xm node ext]) = some { P with phase := 2 } := by
@@ -555,13 +613,28 @@ theorem txInvV_sessInit (v : TxView) (P P' : LState) (ka sm xm : Nat) (node ext 
       have := (hi.tmp it s h).2.2.2.2
       rw [hsess] at this; exact absurd this (by simp)
   have hsegpos : 0 < min v.cfg.segInit sm := by have := hi.segInitPos; omega
+  have hpn : v.peerInit = none := hi.mru.2.2 hsess
+  have hnoseg : ∀ m ∈ v.emitted, segLen m = 0 := (hi.mru.2.1 hpn).2
+  have hmru : ∀ em, (∀ m ∈ em, segLen m = 0) →
+      MruP (some ⟨ka, sm, xm, node⟩) true (min v.cfg.segInit sm) em := by
+    intro em hem
+    refine ⟨?_, fun h => by simp at h, fun h => by simp at h⟩
+    intro p hp
+    simp only [Option.some.injEq] at hp
+    subst hp
+    exact ⟨hsm, Nat.min_le_right _ _, fun m hm => by rw [hem m hm]; exact Nat.zero_le _⟩
   by_cases hpas : v.cfg.passive = true
   · have hsc : v.sentContact = true := by simp [hi.phaseC, hpas, hp1]
     have hsi : v.sentInit = false := by simp [hi.phaseI, hpas, hp1]
     simp only [hpas, if_true]
     obtain ⟨a, b, c, d, x, rfl⟩ := hm1
-    refine { hi with hP := hP2, phaseC := ?_, phaseI := ?_, pPhase := ?_, sess := ?_, term := ?_, seg := ?_,
-                     kaT := ?_, idT := ?_, tmp := ?_, L := ?_, D := ?_ }
+    refine { hi with mru := ?mru, hP := hP2, phaseC := ?_, phaseI := ?_, pPhase := ?_, sess := ?_, term := ?_, seg := ?_, kaT := ?_, idT := ?_, tmp := ?_, L := ?_, D := ?_ }
+    case mru =>
+      exact hmru (v.emitted ++ [Msg.sessInit a b c d x]) (by
+      intro m hm
+      rcases List.mem_append.mp hm with h | h
+      · exact hnoseg m h
+      · simp at h; subst h; rfl)
     · simp [hpas, hsc]
     · simp [hpas]
     · simp
@@ -580,8 +653,9 @@ theorem txInvV_sessInit (v : TxView) (P P' : LState) (ka sm xm : Nat) (node ext 
   · have hpas' : v.cfg.passive = false := by simpa using hpas
     have hsi : v.sentInit = true := by simp [hi.phaseI, hpas', hp1]
     simp only [hpas', Bool.false_eq_true, if_false]
-    refine { hi with hP := hP2, phaseC := ?_, phaseI := ?_, pPhase := ?_, sess := ?_, term := ?_, seg := ?_,
-                     kaT := ?_, idT := ?_, tmp := ?_ }
+    refine { hi with mru := ?mru, hP := hP2, phaseC := ?_, phaseI := ?_, pPhase := ?_, sess := ?_, term := ?_, seg := ?_, kaT := ?_, idT := ?_, tmp := ?_ }
+    case mru =>
+      exact hmru _ hnoseg
     · simp [hpas', hi.phaseC]
     · simp [hpas', hsi]
     · simp
